@@ -2,7 +2,9 @@
 (* Generator for C10/C11/C19: abstract Parquet files. A state is a file:
    the NULL pattern / value ids of a logical column of <= N cells (every pattern),
    page boundaries, row-group boundaries (a subset of the page boundaries),
-   page version, dictionary use, codec, level-run structure, optionality.
+   page version, value encoding (PLAIN, dictionary, DELTA_BINARY_PACKED / DELTA_LENGTH_BYTE_ARRAY,
+   DELTA_BYTE_ARRAY, BYTE_STREAM_SPLIT - whichever applies to the physical type), codec, level-run structure,
+   optionality.
    The orchestrator instantiates the value ids with type-specific boundary
    values for every physical / logical type and writes the bytes with pqwrite. *)
 EXTENDS Naturals, Sequences, FiniteSets, TLC, Json
@@ -15,8 +17,9 @@ Init ==
   \E cells \in [1..n -> 0..3] :          \* 0 = NULL, 1..3 = value ids (repeats exercise the dictionary)
   \E pcuts \in SUBSET (1..(n - 1)) :
   \E gcuts \in SUBSET pcuts :
-  \E ver \in {1, 2}, dict \in BOOLEAN, codec \in {"UNCOMPRESSED", "GZIP"}, runs \in {"rle", "bitpacked", "mixed"} :
-     f = [cells |-> cells, pcuts |-> pcuts, gcuts |-> gcuts, ver |-> ver, dict |-> dict, codec |-> codec, runs |-> runs,
+  \E ver \in {1, 2}, codec \in {"UNCOMPRESSED", "GZIP"}, runs \in {"rle", "bitpacked", "mixed"} :
+  \E enc \in {"plain", "dict", "delta", "delta_prefix", "bss"} :      \* value encoding of the data pages
+     f = [cells |-> cells, pcuts |-> pcuts, gcuts |-> gcuts, ver |-> ver, dict |-> (enc = "dict"), enc |-> enc, codec |-> codec, runs |-> runs,
           optional |-> (\E i \in 1..n : cells[i] = 0) \/ (n % 2 = 0)]
 Next == UNCHANGED f
 Emit == (SampleK = 1 \/ RandomElement(1..SampleK) = 1) => PrintT(ToJson(f))
